@@ -100,15 +100,24 @@ func (blockExec *BlockExecutor) CreateProposalBlock(
 	maxBytes := state.ConsensusParams.Block.MaxBytes
 	maxGas := state.ConsensusParams.Block.MaxGas
 
-	evidence, evSize := blockExec.evpool.PendingEvidence(state.ConsensusParams.Evidence.MaxBytes)
-
-	// Fetch a limited amount of valid txs. The LastCommit included in the block
-	// has one signature slot per validator of the previous height
-	// (state.LastValidators), which can be a bigger set than the current one.
+	// The LastCommit included in the block has one signature slot per validator
+	// of the previous height (state.LastValidators), which can be a bigger set
+	// than the current one.
 	valsCount := state.Validators.Size()
 	if state.LastValidators != nil && state.LastValidators.Size() > 0 {
 		valsCount = state.LastValidators.Size()
 	}
+
+	// Evidence.MaxBytes is only required not to exceed Block.MaxBytes, so it
+	// can be more than what is left of the block next to the header and the
+	// last commit: never ask the pool for more evidence than fits.
+	maxEvidenceBytes := state.ConsensusParams.Evidence.MaxBytes
+	if room := types.MaxDataBytesNoEvidence(maxBytes, valsCount); room < maxEvidenceBytes {
+		maxEvidenceBytes = room
+	}
+	evidence, evSize := blockExec.evpool.PendingEvidence(maxEvidenceBytes)
+
+	// Fetch a limited amount of valid txs
 	maxDataBytes := types.MaxDataBytes(maxBytes, evSize, valsCount)
 
 	txs := blockExec.mempool.ReapMaxBytesMaxGas(maxDataBytes, maxGas)
